@@ -106,17 +106,30 @@ func (ms msgServer) RemoveValidator(ctx context.Context, msg *poa.MsgRemoveValid
 		return nil, fmt.Errorf("cannot remove the last validator in the set")
 	}
 
-	// Ensure the validator exists and is bonded.
+	// Ensure the validator exists and is bonded. Count the validators that actually
+	// hold voting power: unbonding, unbonded, jailed or already removed (zero power)
+	// records do not keep the set alive.
 	found := false
+	active, targetActive := 0, false
+	powerReduction := ms.k.stakingKeeper.PowerReduction(ctx)
 	for _, val := range vals {
+		isActive := val.IsBonded() && !val.IsJailed() && val.ConsensusPower(powerReduction) > 0
+		if isActive {
+			active++
+		}
+
 		if val.OperatorAddress == msg.ValidatorAddress {
 			if !val.IsBonded() {
 				return nil, errorsmod.Wrapf(sdkerrors.ErrInvalidRequest, "validator %s is not bonded", msg.ValidatorAddress)
 			}
 
 			found = true
-			break
+			targetActive = isActive
 		}
+	}
+
+	if targetActive && active <= 1 {
+		return nil, fmt.Errorf("cannot remove the last validator in the set")
 	}
 
 	if !found {
